@@ -40,6 +40,7 @@ ASSUMPTIONS = ['Excel serial numbers of the harness clock are computed by the ha
                'two RAND() calls inside one formula are not required to differ (the statement does not say so)',
                'ExcelModel.compile is called with at least one input; results are read from the function\'s return value']
 WATCHDOG_S = 60
+SHRINK = False  # cases are one formula / one small workbook already; the runner keeps the smallest case per signature
 
 BOOK = 'b.xlsx'
 FUNCS = ('NOW', 'TODAY', 'RAND', 'RANDBETWEEN')
